@@ -53,6 +53,9 @@ var ExtraKnobs = []string{
 	// entity fetches below a list of lists), value / local type, interface, union or scalar; universes with null and
 	// empty inner lists and entities repeated across inner lists (gen_nest.go, gen_op_nest.go).  NOT part of "all2".
 	"nestedlists",
+	// @requires inputs may be list-valued leaves ([T], [T]!, [T!], [T!]!, under nestedlists also [[T]]); universes hold
+	// null items / null lists / empty lists / repeated values in them (gen_lreq.go).  "all3" only.
+	"listrequires",
 }
 
 // AllKnobsV2 = AllKnobs followed by the first two ExtraKnobs.  FROZEN like AllKnobs: C09's family `genh`
@@ -732,11 +735,14 @@ func GenConfig(r *common.Rand, k Knobs) *Config {
 				continue
 			}
 			s := common.PickOf(r, t.subs)
+			if k["listrequires"] {
+				g.addListLeaf(t, s)
+			}
 			var cands []string
 			for _, fd := range t.def.Fields {
 				ow := t.owner[fd.Name]
 				if len(fd.Args) == 0 && !t.isKey[fd.Name] && fd.Name != "sku" && len(ow) == 1 && ow[0] != s &&
-					super.IsLeaf(fd.Type.Base()) && !fd.Type.IsList() && !g.isExt(s, t.def.Name, fd.Name) {
+					super.IsLeaf(fd.Type.Base()) && g.requiresInputType(fd.Type) && !g.isExt(s, t.def.Name, fd.Name) {
 					cands = append(cands, fd.Name)
 				}
 			}
@@ -744,6 +750,9 @@ func GenConfig(r *common.Rand, k Knobs) *Config {
 				continue
 			}
 			r.Shuffle(len(cands), func(a, b int) { cands[a], cands[b] = cands[b], cands[a] })
+			if k["listrequires"] {
+				g.preferListInput(t, cands)
+			}
 			m := 1 + r.Pick(3)
 			if m > len(cands) {
 				m = len(cands)
@@ -786,7 +795,7 @@ func GenConfig(r *common.Rand, k Knobs) *Config {
 				for _, fd := range t.def.Fields {
 					ow := t.owner[fd.Name]
 					if len(fd.Args) == 0 && !t.isKey[fd.Name] && fd.Name != "sku" && len(ow) == 1 && ow[0] != h &&
-						super.IsLeaf(fd.Type.Base()) && !fd.Type.IsList() && !g.isExt(h, tn, fd.Name) && !g.isRequiresField(tn, fd.Name) &&
+						super.IsLeaf(fd.Type.Base()) && g.requiresInputType(fd.Type) && !g.isExt(h, tn, fd.Name) && !g.isRequiresField(tn, fd.Name) &&
 						a.def.Field(fd.Name) == nil {
 						cands = append(cands, fd.Name)
 					}
